@@ -1325,6 +1325,14 @@ class SMI(Machine):
                     par = cur.d['parent']
                     cur = None if par is None else XNode(cur.doc, par)
             return It(anc(n))
+        if meth in ('next_siblings', 'prev_siblings'):
+            # roxmltree: both iterators start at the node itself
+            par = dd['parent']
+            if par is None:
+                return It(iter([n]))
+            sibs = list(self.children_of(XNode(n.doc, par)))
+            i = [j for j, k in enumerate(sibs) if k.idx == n.idx][0]
+            return It(iter(sibs[i:] if meth == 'next_siblings' else sibs[:i + 1][::-1]))
         if meth in ('next_sibling', 'prev_sibling', 'next_sibling_element', 'prev_sibling_element', 'first_child', 'last_child', 'first_element_child', 'last_element_child'):
             if meth in ('first_child', 'last_child', 'last_element_child'):
                 kids = list(self.children_of(n))
